@@ -180,7 +180,7 @@ MR_CATS = [
 
 def gen_cats(rng, n, allow_missing=True, numeric="some", min_valid=1):
     """n categories, distinct ids, missing flags at arbitrary payload positions."""
-    ids = rng.sample(range(1, 3 * n + 4), n)
+    ids = rng.sample(range(0, 3 * n + 4), n)      # 0 is a legitimate category id
     cats = []
     for i, cid in enumerate(ids):
         missing = allow_missing and rng.random() < 0.25
